@@ -62,9 +62,9 @@ def make_box(rng, k, ny, nx):
         x0, y0 = nx - rng.randint(0, w), ny - rng.randint(0, h)
     elif pos == 3:    # disjoint far away
         x0, y0 = rng.choice((-w - rng.randint(0, 3), nx + rng.randint(0, 3))), rng.randint(-2, ny + 2)
-    elif pos == 4:    # larger than the image
-        w, h = nx + rng.randint(1, 3), ny + rng.randint(1, 3)
-        x0, y0 = -rng.randint(0, 2), -rng.randint(0, 2)
+    elif pos == 4:    # larger than the image, or exactly the image
+        w, h = nx + rng.randint(0, 3), ny + rng.randint(0, 3)
+        x0, y0 = -rng.randint(0, min(2, w - nx)), -rng.randint(0, min(2, h - ny))
     elif pos == 5:    # touching from outside (shares an edge, no pixel)
         x0, y0 = -w, rng.randint(-1, ny)
     elif pos == 6:
@@ -109,6 +109,9 @@ def check(res, rng, kind, fill, k, desc):
     if (ti is None) != (not common):
         return res.violation(f'to_image: None={ti is None} but common pixels={len(common)}', case=desc, bbox=str(b), shape=(ny, nx))
     if ti is not None:
+        if np.shares_memory(ti, m.data):
+            return res.violation('to_image returns an array that shares memory with the mask weights (editing the image in place would alter the mask)',
+                                 case=desc, bbox=str(b), shape=(ny, nx))
         if ti.shape != (ny, nx):
             return res.violation(f'to_image shape {ti.shape}', case=desc)
         for Y in range(ny):
